@@ -123,7 +123,7 @@ var sameShardPool = func() [][]byte {
 
 	var out [][]byte
 
-	for i := 0; len(out) < 2600; i++ {
+	for i := 0; len(out) < 4300; i++ {
 		k := []byte(fmt.Sprintf("m%06d", i))
 		if xxhash.Sum64(k)%128 == want {
 			out = append(out, k)
